@@ -655,6 +655,7 @@ class Node(object):
         self.number_of_individuals -= 1
         reneging_individual.queue_size_at_departure = self.number_of_individuals
         reneging_individual.exit_date = self.now
+        reneging_individual.destination = next_node.id_number
         self.write_reneging_record(reneging_individual)
         self.reset_individual_attributes(reneging_individual)
         self.simulation.statetracker.change_state_renege(self, next_node, reneging_individual, False)
